@@ -336,3 +336,72 @@ Proof.
     apply tile_more; try lia; [vm_compute; reflexivity|vm_compute; reflexivity|].
     apply tile_more; try lia; [vm_compute; reflexivity|vm_compute; reflexivity|]. apply tile_last; try lia. vm_compute. reflexivity.
 Qed.
+
+(* ---- round 7 *)
+(* the tiling induction for a client loop that is driven only by the server's answers (M flag, bytes received):
+   request count of the model's own loop (constant size exponent), and a loop whose k-th request has its own exponent *)
+From Verif Require Import Proofs.C19R7.
+
+(* ceil_blocks len size = ceil(len/size), 1 for the empty file *)
+Theorem C19_ceil_blocks_meaning : forall L s, 0 < s -> 0 <= L ->
+  (L = 0 -> ceil_blocks L s = 1) /\ (0 < L -> (ceil_blocks L s - 1) * s < L <= ceil_blocks L s * s).
+Proof. exact ceil_blocks_meaning. Qed.
+Print Assumptions C19_ceil_blocks_meaning.
+(* fetching blocks 0,1,2,... with a constant size exponent until M is clear takes exactly ceil(len/size) requests *)
+Theorem C19_blockwise_request_count : forall self req p c szx fuel st,
+  code req = 1 -> opt_observe req = None -> existsb is_cur (opt_etags req) = false -> needs_blockwise_assembly req = false ->
+  request_to_localpath self req = Ok p -> fs_stat (st_fs st) (load_parts p) = inr (NFile c) ->
+  0 <= szx -> (List.length c <= fuel)%nat ->
+  Z.of_nat (List.length (snd (fetch_all fuel self req szx 0 st))) = ceil_blocks (blen c) (blk_size szx).
+Proof. exact fetch_all_request_count. Qed.
+Print Assumptions C19_blockwise_request_count.
+(* every request with its own size exponent (any non-increasing sequence pol; block number = bytes received so far / size,
+   as aiocoap's client computes it): the payloads concatenate to exactly the file, all 2.05, file system unchanged, and
+   at most 1 + len/16 requests are sent *)
+Theorem C19_blockwise_read_varying_szx : forall self req p c pol fuel st,
+  code req = 1 -> opt_observe req = None -> existsb is_cur (opt_etags req) = false -> needs_blockwise_assembly req = false ->
+  request_to_localpath self req = Ok p -> fs_stat (st_fs st) (load_parts p) = inr (NFile c) ->
+  (forall k, 0 <= pol k) -> (forall k, pol (Datatypes.S k) <= pol k) -> (List.length c <= fuel)%nat ->
+  match fetch_var self req fuel pol 0%nat 0 st with
+  | (st', outs) => concat (map (fun o => payload_of (snd o)) outs) = c
+                   /\ Forall (fun o => rcode (snd o) = 69) outs /\ st_fs st' = st_fs st
+                   /\ (List.length outs <= Datatypes.S (List.length c / 16))%nat
+  end.
+Proof. exact fetch_var_whole_file. Qed.
+Print Assumptions C19_blockwise_read_varying_szx.
+(* the same loop with a constant exponent: exactly ceil(len/size) requests *)
+Theorem C19_blockwise_request_count_own_szx : forall self req p c pol szx fuel st,
+  code req = 1 -> opt_observe req = None -> existsb is_cur (opt_etags req) = false -> needs_blockwise_assembly req = false ->
+  request_to_localpath self req = Ok p -> fs_stat (st_fs st) (load_parts p) = inr (NFile c) ->
+  0 <= szx -> (forall k, pol k = szx) -> (List.length c <= fuel)%nat ->
+  Z.of_nat (List.length (snd (fetch_var self req fuel pol 0%nat 0 st))) = ceil_blocks (blen c) (blk_size szx).
+Proof. exact fetch_var_request_count_const. Qed.
+Print Assumptions C19_blockwise_request_count_own_szx.
+
+Definition ex7_fs : fsys :=
+  [([S "srv"], NDir); ([S "srv"; S "root"], NDir); ([S "srv"; S "root"; S "f"], NFile (pattern 2049 1));
+   ([S "srv"; S "root"; S "g"], NFile (pattern 100 2)); ([S "srv"; S "root"; S "e"], NFile [])].
+Definition ex7_st : state := {| st_fs := ex7_fs; st_obs := []; st_spool := [] |}.
+Definition ex7_pol (k : nat) : Z := Z.max 0 (2 - Z.of_nat k).      (* 64, 32, 16, 16, ... bytes *)
+Example C19_ceil_blocks_nonvacuous :
+  ceil_blocks 0 16 = 1 /\ ceil_blocks 1 16 = 1 /\ ceil_blocks 16 16 = 1 /\ ceil_blocks 17 16 = 2 /\ ceil_blocks 2049 1024 = 3.
+Proof. vm_compute. repeat split; reflexivity. Qed.
+(* the hypotheses of the three theorems hold for these requests, and the conclusions are what the model computes *)
+Example C19_request_count_nonvacuous :
+  (exists p, request_to_localpath ex_self (ex_req 1 [S "f"]) = Ok p /\ fs_stat ex7_fs (load_parts p) = inr (NFile (pattern 2049 1)))
+  /\ needs_blockwise_assembly (ex_req 1 [S "f"]) = false
+  /\ List.length (snd (fetch_all 4096 ex_self (ex_req 1 [S "f"]) 6 0 ex7_st)) = 3%nat
+  /\ List.length (snd (fetch_all 4096 ex_self (ex_req 1 [S "g"]) 0 0 ex7_st)) = 7%nat
+  /\ List.length (snd (fetch_all 4096 ex_self (ex_req 1 [S "g"]) 2 0 ex7_st)) = 2%nat
+  /\ List.length (snd (fetch_all 4096 ex_self (ex_req 1 [S "e"]) 3 0 ex7_st)) = 1%nat
+  /\ ceil_blocks 2049 (blk_size 6) = 3 /\ ceil_blocks 100 (blk_size 0) = 7 /\ ceil_blocks 100 (blk_size 2) = 2 /\ ceil_blocks 0 (blk_size 3) = 1.
+Proof. split; [eexists; split; vm_compute; reflexivity|]. vm_compute. repeat split; reflexivity. Qed.
+Example C19_varying_szx_nonvacuous :
+  (forall k, 0 <= ex7_pol k) /\ (forall k, ex7_pol (Datatypes.S k) <= ex7_pol k)
+  /\ (let '(st', outs) := fetch_var ex_self (ex_req 1 [S "g"]) 4096 ex7_pol 0%nat 0 ex7_st in
+      map (fun o => blen (payload_of (snd o))) outs = [64; 32; 4]
+      /\ map (fun o => match rbody (snd o) with BFile _ b => b | _ => None end) outs = [Some (0, true, 2); Some (2, true, 1); Some (6, false, 0)]
+      /\ concat (map (fun o => payload_of (snd o)) outs) = pattern 100 2 /\ st_fs st' = ex7_fs)
+  /\ List.length (snd (fetch_var ex_self (ex_req 1 [S "f"]) 4096 (fun _ => 7) 0%nat 0 ex7_st)) = 3%nat
+  /\ List.length (snd (fetch_var ex_self (ex_req 1 [S "e"]) 4096 ex7_pol 0%nat 0 ex7_st)) = 1%nat.
+Proof. split; [intros k; unfold ex7_pol; lia|]. split; [intros k; unfold ex7_pol; lia|]. vm_compute. repeat split; reflexivity. Qed.
